@@ -36,7 +36,8 @@ void install_fault_handlers() {
 void report_fail(const char *prop, const std::string &why, const std::string &caseJson) {
     ++g_fail;
     static long printed = 0;
-    if (++printed <= 300) {
+    static long cap = getenv("GRV_MAXFAIL") ? atol(getenv("GRV_MAXFAIL")) : 300;
+    if (++printed <= cap) {
         vj::W w; w.str("fail", prop).str("why", why).raw("case", caseJson.empty() ? "null" : caseJson);
         puts(w.done().c_str());
     }
